@@ -155,7 +155,8 @@ func ItemCollectionDeduplication(recCols ...*ItemCollection) ItemCollection {
 		toRemove := make([]int, 0)
 		for i, cur := range *recCol {
 			save := true
-			if cur == nil {
+			if cur == nil || (IsObject(cur) || IsLink(cur)) && IsNil(cur) {
+				// NOTE: nil entries, typed or not, are left alone
 				continue
 			}
 			var testIt IRI
@@ -304,6 +305,9 @@ func (i ItemCollection) Recipients() ItemCollection {
 	all := make(ItemCollection, 0)
 	for _, it := range i {
 		_ = OnObject(it, func(ob *Object) error {
+			if ob == nil {
+				return nil
+			}
 			aud := ob.Audience
 			_ = all.Append(ItemCollectionDeduplication(&ob.To, &ob.CC, &ob.Bto, &ob.BCC, &aud)...)
 			return nil
